@@ -118,7 +118,8 @@ type Oblig struct {
 	Goal   string
 	Pos    token.Position
 	Unit   *Unit
-	Values [][2]string // replay terms: name, smt term (entry state)
+	Values [][2]string // replay terms: name, smt term
+	Guides []string    // guide formulas (alternatives) for the realistic-model search
 	Expect string      // "" => must be unsat (valid). "sat" => cover query
 }
 
@@ -376,6 +377,9 @@ func (u *Unit) load(s *State, a Addr) Term {
 }
 
 func (u *Unit) store(s *State, a Addr, v Term) {
+	if u.fc != nil && u.fc.Pure {
+		u.checkPureStore(a)
+	}
 	switch x := a.(type) {
 	case AddrCell:
 		s.cells[x.key] = v
@@ -443,6 +447,26 @@ func (u *Unit) typeFacts(s *State, v Term, t types.Type) {
 				alts = append(alts, fmt.Sprintf("(= (itype %s) %s)", v.S, u.ss.tag(ct)))
 			}
 			s.assume(tor(alts...))
+		}
+	}
+}
+
+// checkPureStore: a function whose contract says `pure` must not write caller-visible memory.
+func (u *Unit) checkPureStore(a Addr) {
+	switch x := a.(type) {
+	case AddrCell:
+		if _, ok := x.key.(*ssa.Global); ok {
+			panic(abortUnit{"declared pure but writes package-level variable " + x.key.Name()})
+		}
+	case AddrField:
+		u.checkPureStore(x.base)
+	case AddrDeref:
+		if !strings.HasPrefix(x.ptr.S, "new.") {
+			panic(abortUnit{"declared pure but writes through pointer " + x.ptr.S})
+		}
+	case AddrElem:
+		if !strings.HasPrefix(x.region.S, "arr!") && !strings.HasPrefix(x.region.S, "arr.") {
+			panic(abortUnit{"declared pure but writes slice element of region " + x.region.S})
 		}
 	}
 }
